@@ -36,7 +36,7 @@ def c05_runs(tier, scale):
 
 
 # request verbs whose response lines are compared verbatim (everything else: ok-lines verbatim, any err = err)
-EXACT_VERBS = {"sinkwriteall", "rabin", "crc64", "once", "rditems", "rdfile", "wrcheck"}
+EXACT_VERBS = {"sohdr", "sinkwriteall", "rabin", "crc64", "once", "rditems", "rdfile", "wrcheck"}
 
 
 def c13_runs(tier, scale):
@@ -55,6 +55,12 @@ def c14_runs(tier, scale):
     if tier == "thorough":
         return [("c14", [6 * scale, 1], None) for _ in range(16)]
     return [("c14", [4 * scale, 0], None), ("c14", [4 * scale, 0], None)]
+
+
+def c18_runs(tier, scale):
+    if tier == "thorough":
+        return [("c18", [150 * scale, 1], None) for _ in range(16)]
+    return [("c18", [60 * scale, 0], None), ("c18", [40 * scale, 0], None)]
 
 
 PROPS = {
@@ -173,6 +179,28 @@ PROPS = {
                 "for the others in the quick tier), and every byte of the magic, of the header marker and of every block marker altered; each case through "
                 "the real Reader (oracle) and, for the null codec, through the model reader (exact diff); distinct = distinct request lines",
         "trusted_base": DATUM_TB + ["std Read::read_exact semantics are modelled (takeExact)"],
+        "assumptions": [],
+    },
+    "C18": {
+        "lean_modules": ["AvroProofs.C18"],
+        "theorems": ["Avro.C18.rabinEmpty_is_spec", "Avro.C18.marker_is_spec", "Avro.C18.header_spec", "Avro.C18.write_restores",
+                     "Avro.C18.so_history", "Avro.C18.message_roundtrip", "Avro.C18.reader_rejects", "Avro.C18.reader_short",
+                     "Avro.rabin_eq_crc64"],
+        "partial": [
+            {"theorem": "Avro.C18.header_spec",
+             "excluded_by": "the canonical form itself (the fingerprint's input) is C12's subject; here it is a parameter"},
+            {"theorem": "typed reader (read_deser) / SpecificSingleObjectWriter",
+             "excluded_by": "not modelled; decided by the implementation oracle"},
+        ],
+        "harness": c18_runs,
+        "projection": "okerr",
+        "nontrivial": lambda l: not l.startswith("rabin x") or len(l) > 14,
+        "rule": "Rabin on all byte strings of length <= 1 (thorough: <= 2) + pooled 2-byte + random longer strings; generated schemas x 5 values "
+                "written through ONE GenericSingleObjectWriter with interleaved rejected values and failing sinks; every successful message checked "
+                "byte-exact against the model and decoded by both readers; every single-bit alteration and every truncation of the 10-byte header "
+                "through both readers; SpecificSingleObjectWriter with a value validation rejects",
+        "trusted_base": DATUM_TB + ["the canonical form (input of the fingerprint) is taken from the crate here; its conformance is C12's subject",
+                                    "single-object marker bytes and fingerprint byte order are extracted from headers.rs by the translator"],
         "assumptions": [],
     },
 }
